@@ -135,7 +135,12 @@ func c02Levels(p *Prog, r *Report) {
 		}
 		tab, pos, ok := levelTable(p, fi)
 		if !ok {
-			r.Undecided("C02.a", it.key+"#level-switch", p.pos(fi.Decl), "no switch over the transaction's isolation level with constant cases (an if/else chain is not recognised)")
+			// no switch: derive the table by abstract evaluation per level (any control structure)
+			callee := map[string]string{kStoreGet: kCoreGet, kStoreGetKeys: kCoreGetFiles, kTxCommit: kUpdateTx}[it.key]
+			tab, pos, ok = levelTableByEval(p, fi, callee, levelNames)
+		}
+		if !ok {
+			r.Undecided("C02.a", it.key+"#level-switch", p.pos(fi.Decl), "the level -> filter table could be extracted neither from a switch nor by evaluating the function per level")
 			continue
 		}
 		tables[it.key] = tab
@@ -738,4 +743,100 @@ func c02Unlink(p *Prog, r *Report) {
 				"a node popped from the transaction's list can reach "+bad+" without DeleteLink: the version stays in the all-store and ReadUncommitted readers keep seeing a rolled-back / collected / re-stamped version")
 		}
 	}
+}
+
+// levelTableByEval derives the level -> filter table by evaluating the function abstractly for each declared
+// level (success path: every error is nil), whatever control structure builds the filter. The filter is read at
+// the call that passes it to the core.
+func levelTableByEval(p *Prog, fi *FuncInfo, callee string, levels map[string]string) (map[string]levelRow, string, bool) {
+	info := fi.Pkg.TypesInfo
+	f := p.FlatOf(fi)
+	sites := f.CallSites(callee)
+	if len(sites) != 1 {
+		return nil, "", false
+	}
+	call := sites[0].Call
+	filterObj := objOf(info, call.Args[len(call.Args)-1])
+	if filterObj == nil {
+		return nil, "", false
+	}
+	res := map[string]levelRow{}
+	for val, name := range levels {
+		lv := val
+		env := &Env{P: p, Pkg: fi.Pkg, Vars: map[types.Object]*Val{}}
+		env.Hook = func(env *Env, e ast.Expr) (*Val, bool) {
+			if env.Pkg != fi.Pkg {
+				return nil, false
+			}
+			switch x := e.(type) {
+			case *ast.SelectorExpr:
+				if x.Sel.Name == "IsoLevel" {
+					c, _ := constValOfKeyVal(lv)
+					return c, true
+				}
+				if x.Sel.Name == "Seq" {
+					return &Val{Tag: "tx.Seq"}, true
+				}
+				if x.Sel.Name == "Id" {
+					return &Val{Tag: "tx.Id"}, true
+				}
+			case *ast.Ident:
+				if o := objOf(info, x); o != nil && isErrorType(o.Type()) {
+					return &Val{Nil: true}, true
+				}
+			}
+			return nil, false
+		}
+		visited, _, err := f.WalkPath(env)
+		reached := false
+		for _, id := range visited {
+			if id == sites[0].Node {
+				reached = true
+			}
+		}
+		if !reached {
+			if err != nil && f.WalkStop == sites[0].Node {
+				reached = true
+			}
+		}
+		if !reached {
+			return nil, "", false
+		}
+		fv := env.Vars[filterObj]
+		row := levelRow{Level: "fs_db." + name, TxId: "-", BeforeSeq: "-"}
+		if fv != nil && fv.Fields != nil {
+			if t := fv.Fields["TxId"]; t != nil && !t.Nil {
+				v := t
+				for v.Ptr != nil {
+					v = v.Ptr
+				}
+				if v.C != nil {
+					if main, ok := constValOfKeyStr(p, "internal/model.MainTxId"); ok && strings.Trim(v.C.ExactString(), "\"") == main {
+						row.TxId = "internal/model.MainTxId"
+					} else {
+						row.TxId = v.C.ExactString()
+					}
+				} else {
+					row.TxId = v.String()
+				}
+			}
+			if b := fv.Fields["BeforeSeq"]; b != nil && !b.Nil {
+				v := b
+				for v.Ptr != nil {
+					v = v.Ptr
+				}
+				row.BeforeSeq = v.String()
+			}
+		}
+		res[val] = row
+	}
+	return res, p.pos(call), true
+}
+
+func constValOfKeyVal(v string) (*Val, bool) {
+	var n int64
+	if _, err := fmt.Sscan(v, &n); err != nil {
+		return nil, false
+	}
+	return intVal(n), true
 }
